@@ -41,7 +41,7 @@ Definition del_store (id : N) (t : state) : state :=
 Lemma remove_tail s t id :
   Inv s -> upd s t -> CoreV t -> FocusOk t -> ~ In id (raw_ids t) ->
   (forall x, x <> id -> (In x (raw_ids t) <-> In x (raw_ids s))) ->
-  Inv (del_store id t) /\ (M3 s -> M3 (del_store id t)) /\ (Fresh s -> Fresh (del_store id t)).
+  Inv (del_store id t) /\ (M3 s -> M3 (del_store id t)) /\ (FreshV t -> FreshV (del_store id t)).
 Proof.
   intros I U C F Hn Hm. pose proof (u_cfg _ _ U) as Cf.
   set (p := fun i => negb (N.eqb i id)).
@@ -74,8 +74,7 @@ Proof.
     + intros x H Hw. rewrite Vw. apply St in H as [H Hne]. apply Hm; [exact Hne|].
       apply (i_m2 _ I); [exact H|]. unfold wanted in *. rewrite At, Fl, Sm in Hw. exact Hw.
   - intros H3 Hs x H. rewrite Vw in H. rewrite At. rewrite Sm in Hs. apply H3; [exact Hs|]. apply Hm; auto.
-  - intros Fr x o k H. rewrite Co in H. destruct (p x); [|discriminate]. rewrite At.
-    destruct (u_new _ _ U _ _ _ H) as [H1|[_ H1]]; [apply Fr; exact H1 | exact H1].
+  - intros Fr k x H. exact (Fr k x H).
 Qed.
 
 Lemma do_remove id s : Inv s -> log s = [] -> exists s', do_op (Remove id) s = Ok (tt, s') /\ post (Remove id) s s'.
@@ -112,7 +111,10 @@ Proof.
     destruct (remove_tail s s4 id I U (sent_CoreV _ _ _ X4 C3) F4) as (A1 & A2 & A3).
     { rewrite R4. exact Hn3. }
     { intros x Hne. rewrite R4. apply (in_perm_cons _ _ _ _ P3 Hne). }
-    split; [exact A1|]. split; [intros H; auto|]. split; [intros H _; auto|].
+    split; [exact A1|]. split; [intros H; auto|]. split.
+    { intros Fr. apply A3. intros k' x H. rewrite (sn_view _ _ _ X4), V3 in H.
+      rewrite (ce_okey _ _ (u_cfg _ _ U)), (attr_cfg _ _ x (u_cfg _ _ U)). apply Fr.
+      rewrite <- (e_view _ _ X1), <- (e_view _ _ X2), V2. apply in_app_iff in H. apply in_or_app. simpl. tauto. }
     change (raw_ids (del_store id s4)) with (raw_ids s4). change (log (del_store id s4)) with (log s4 ++ [StoreRemove id]).
     rewrite (sn_log _ _ _ X4), L3, (e_log _ _ X2), (e_log _ _ X1), L. simpl.
     apply (n_remove id idx _ (raw_ids s3)); [rewrite <- R1; exact Hnth | exact P3 | exact Hn3 |].
@@ -124,7 +126,8 @@ Proof.
     destruct (remove_tail s s1 id I (um_upd _ _ (e_updm _ _ X1)) C1) as (A1 & A2 & A3); auto.
     { eapply FocusOk_eq; [apply (e_view _ _ X1) | apply (e_focus _ _ X1) | apply (i_focus _ I)]. }
     { intros x _. rewrite R1. tauto. }
-    split; [exact A1|]. split; [intros H; auto|]. split; [intros H _; auto|].
+    split; [exact A1|]. split; [intros H; auto|]. split.
+    { intros Fr. apply A3. eapply FreshV_cfg; [apply (u_cfg _ _ (um_upd _ _ (e_updm _ _ X1))) | apply (e_view _ _ X1) | exact Fr]. }
     change (raw_ids (del_store id s1)) with (raw_ids s1). change (log (del_store id s1)) with (log s1 ++ [StoreRemove id]).
     rewrite (e_log _ _ X1), L. simpl. apply n_sremove, n_done. rewrite R1. reflexivity.
 Qed.
@@ -138,11 +141,12 @@ Definition show_flow (id : N) : M unit :=
 
 Lemma show_flow_spec id s : CoreV s -> In id (store s) -> ~ In id (raw_ids s) ->
   (forall g, focus s = Some g -> In g (raw_ids s)) ->
-  exists s', show_flow id s = Ok (tt, s') /\ updm s s' /\ CoreV s' /\ FocusOk s'
-  /\ Permutation (raw_ids s') (id :: raw_ids s) /\ log s' = log s ++ [ViewAdd id].
+  exists s', show_flow id s = Ok (tt, s') /\ upd s s' /\ CoreV s' /\ FocusOk s'
+  /\ Permutation (raw_ids s') (id :: raw_ids s) /\ log s' = log s ++ [ViewAdd id] /\ (FreshV s -> FreshV s')
+  /\ view s' = sl_add (generate (okey s) (attr s id)) id (view s).
 Proof.
   intros C Hst Hn Hf. unfold show_flow.
-  destruct (base_add_spec id s C Hst Hn) as (s1 & E1 & U1 & F1 & L1 & C1 & P1).
+  destruct (base_add_spec id s C Hst Hn) as (s1 & E1 & U1 & F1 & L1 & C1 & P1 & V1).
   rewrite (bind_ok _ _ _ _ _ E1). msimp.
   assert (Hin1 : In id (raw_ids s1)) by (apply (Permutation_in _ (Permutation_sym P1)); left; reflexivity).
   assert (G : exists s2, (if focus_follow s1 then focus_set_flow (Some id) else ret tt) s1 = Ok (tt, s2)
@@ -158,10 +162,14 @@ Proof.
   assert (Hin2 : In id (raw_ids s2)) by (rewrite R2; exact Hin1).
   destruct (send_view_add_spec id s2 C2 Hin2 Hf2) as (s3 & E3 & X3 & F3).
   exists s3. split; [exact E3|].
-  split; [eapply updm_trans; [exact U1 | eapply updm_trans; [apply (f_updm _ _ X2) | apply (sn_updm _ _ _ X3)]]|].
+  split; [eapply upd_trans; [exact U1 | apply um_upd; eapply updm_trans; [apply (f_updm _ _ X2) | apply (sn_updm _ _ _ X3)]]|].
   split; [eapply sent_CoreV; eauto|]. split; [exact F3|].
   split; [rewrite (sent_raw_ids _ _ _ X3), R2; exact P1|].
-  rewrite (sn_log _ _ _ X3), (f_log _ _ X2), L1. reflexivity.
+  split; [rewrite (sn_log _ _ _ X3), (f_log _ _ X2), L1; reflexivity|].
+  split; [|rewrite (sn_view _ _ _ X3), (f_view _ _ X2); exact V1].
+  intros Fr. eapply FreshV_cfg; [apply (u_cfg _ _ (um_upd _ _ (sn_updm _ _ _ X3))) | apply (sn_view _ _ _ X3)|].
+  eapply FreshV_cfg; [apply (u_cfg _ _ (um_upd _ _ (f_updm _ _ X2))) | apply (f_view _ _ X2)|].
+  eapply FreshV_add; [apply (u_cfg _ _ U1) | exact V1 | exact Fr].
 Qed.
 
 (* ---------- add ---------- *)
@@ -186,10 +194,9 @@ Proof.
   { destruct C as [H1 H2 H3 H4]. constructor; simpl; auto.
     - apply Permutation_NoDup with (l := id :: store s); [apply Permutation_cons_append | constructor; assumption].
     - intros k x H. destruct (H3 _ _ H) as [Ha Hb]. split; [apply in_or_app; left; exact Ha | exact Hb]. }
-  assert (Fr0 : Fresh s -> Fresh s0).
-  { intros Fr x o k H. change (cache_of s0 x o) with (cache_of s x o) in H. rewrite Atne; [apply Fr; exact H|].
-    apply (i_sids _ I). unfold cache_of in H. destruct (sget (settings s) x) eqn:Es; [|discriminate].
-    eapply sget_ids; eauto. }
+  assert (Fr0 : FreshV s -> FreshV s0).
+  { intros Fr k x H. change (okey s0) with (okey s). rewrite Atne; [apply Fr; exact H|].
+    apply Vst. eapply in_ids; eauto. }
   assert (Si0 : SidsOk s0).
   { intros x H. simpl. apply in_or_app. left. apply (i_sids _ I). exact H. }
   destruct (shows s0 f) eqn:Esh.
@@ -199,16 +206,16 @@ Proof.
     assert (Hst0 : In id (store s0)) by (simpl; apply in_or_app; right; left; reflexivity).
     assert (Hf0 : forall g, focus s0 = Some g -> In g (raw_ids s0)).
     { intros g Hg. pose proof (i_focus _ I) as F. unfold FocusOk in F. change (focus s0) with (focus s) in Hg. rewrite Hg in F. exact F. }
-    destruct (show_flow_spec id s0 C0 Hst0 Hn Hf0) as (s1 & E1 & U1 & C1 & F1 & P1 & L1).
+    destruct (show_flow_spec id s0 C0 Hst0 Hn Hf0) as (s1 & E1 & U1 & C1 & F1 & P1 & L1 & Fv1 & _).
     exists s1. split; [exact E1|].
-    pose proof (u_cfg _ _ (um_upd _ _ U1)) as Cf.
+    pose proof (u_cfg _ _ U1) as Cf.
     assert (Mem : forall x, In x (raw_ids s1) <-> x = id \/ In x (raw_ids s)).
     { intros x. split; intros H.
       - apply (Permutation_in _ P1) in H. destruct H; auto.
       - apply (Permutation_in _ (Permutation_sym P1)). destruct H; [left; auto | right; exact H]. }
     split; [|split; [|split]].
     + constructor; auto.
-      * eapply Sids_upd; [apply (um_upd _ _ U1) | exact Si0].
+      * eapply Sids_upd; [exact U1 | exact Si0].
       * intros x H. rewrite (attr_cfg _ _ x Cf), (ce_filt _ _ Cf). apply Mem in H. destruct H as [->|H].
         { rewrite Atid. exact Emf. }
         { rewrite Atne by auto. apply (i_m1 _ I). exact H. }
@@ -218,7 +225,7 @@ Proof.
     + intros H3 Hs x H. rewrite (ce_sm _ _ Cf) in Hs. rewrite (attr_cfg _ _ x Cf). apply Mem in H. destruct H as [->|H].
       * rewrite Atid. apply Emk. exact Hs.
       * rewrite Atne by auto. apply H3; auto.
-    + intros Fr _. eapply Fresh_upd; [apply (um_upd _ _ U1) | apply Fr0; exact Fr].
+    + intros Fr. apply Fv1, Fr0, Fr.
     + rewrite L1. simpl. rewrite L. simpl. apply (n_add id _ (raw_ids s1)); [exact Hn | symmetry; exact P1 | apply n_done; reflexivity].
   - exists s0. split; [reflexivity|]. split; [|split; [|split]].
     + constructor; auto.
@@ -228,6 +235,6 @@ Proof.
         { apply (i_m2 _ I); [exact H|]. unfold wanted in *. rewrite Atne in Hw by exact H. exact Hw. }
         { subst x. rewrite <- shows_wanted, Atid, Esh in Hw. discriminate. }
     + intros H3 Hs x H. rewrite Atne by auto. apply H3; auto.
-    + intros Fr _. apply Fr0, Fr.
+    + intros Fr. apply Fr0, Fr.
     + simpl. rewrite L. apply n_done. reflexivity.
 Qed.
